@@ -432,7 +432,7 @@ fn sweep(case: &TreeCase, m: &Model, t: &dyn DynDs, which: usize, deep: bool, ou
             }
         }
         for c in occurring.iter().take(8) {
-            for d in [c.wrapping_sub(1), c + 1] {
+            for d in [c.wrapping_sub(1), c.wrapping_add(1)] {
                 if d <= max && m.count(d) == 0 {
                     absent.push(d);
                 }
